@@ -21,6 +21,8 @@ type faultFS struct {
 	local  file.Implementation
 	ops    int // operations performed in this case
 	failAt int // ordinal (1-based) of the operation that fails; 0 = none
+	failFrom int // every operation from this ordinal on fails; 0 = none
+	failKind string // if set, failFrom applies to operations of this kind only
 	log    []string
 }
 
@@ -31,7 +33,7 @@ var errFault = errors.New("injected file-operation failure")
 func (f *faultFS) step(name string) error {
 	f.ops++
 	f.log = append(f.log, name)
-	if f.failAt == f.ops {
+	if f.failAt == f.ops || (f.failFrom > 0 && f.ops >= f.failFrom && (f.failKind == "" || f.failKind == name)) {
 		return errFault
 	}
 	return nil
